@@ -89,6 +89,8 @@ def make_world(orphans_only=False):
     nodes += [W.l('/v/.Trash-1000/files/orphanlink', 'nowhere', 2203), W.l('/x/custom/files/rel', '../w/gone.txt', 2204),
               W.f('/x/custom/info/rel.trashinfo', K.info_text('/x/w/rel', '2020-06-01T00:00:00'), 0o600, 2205)]
     nodes += K.trashed('/x/custom', 'cus', '/x/w/cus', '2020-06-14T11:59:59', 'file', 2080)
+    # (an orphan whose name differs only in letter case from an entry the same run removes)
+    nodes += [W.f('/v/.Trash-1000/files/ANC', 'ORPHAN-ANC', 0o644, 2210), W.f('/h/.local/share/Trash/files/Old', 'ORPHAN-Old', 0o644, 2211)]
     nodes += [W.f('/v/.Trash-1000/files/orphan', 'ORPHAN', 0o644, 2200), W.d('/v/.Trash-1000/files/orphandir'),
               W.f('/v/.Trash-1000/files/orphandir/in', 'IN', 0o644, 2201),
               W.f('/v/.Trash-1000/info/lone.trashinfo', K.info_text('w/lone', '1990-01-01T00:00:00'), 0o600, 2202)]
